@@ -6,8 +6,14 @@
   * complex conjugation commutes with every operation of the model (Schwarz reflection).
   * harmonic numbers `H n = Σ_{k<n} 1/(k+1)` and the Mellin moments of monomials / of the
     plus-distribution as interval integrals.
+  * hand-written forms over ℂ of the LO anomalous dimensions and of c_FL, with BRIDGING lemmas to the
+    generated definitions (`bridge`, see Proofs/Bridge.lean): the proofs of Props/C03 that clear
+    denominators (`rw`, `field_simp` with side conditions) work on these fixed forms, so they survive
+    re-orderings of the Python formulas (`1+n` ↔ `n+1`, a factor 1/2 distributed, …), while a change
+    of a formula's value breaks the bridging lemma.
 -/
 import Gen.AdimR
+import Proofs.Bridge
 import Mathlib.Data.Complex.Basic
 import Mathlib.Tactic.Ring
 import Mathlib.Tactic.FieldSimp
@@ -95,5 +101,55 @@ theorem conj_S3_prime_half (prty : ℝ) (P : SF) :
 theorem conj_S2_tilde (n : Cx ℝ) (prty : ℝ) (P : SF) :
     Cx.conj (S2_tilde n prty P) = S2_tilde (Cx.conj n) prty P.conj := by
   simp only [S2_tilde, SF.conj, conj_add, conj_sub, conj_mul, conj_div, conj_r, conj_cpow]
+
+/-! ### hand-written forms of the LO anomalous dimensions and of c_FL over ℂ, and the bridge to the generated ones
+
+  `N` is the Mellin moment, `s` = S₁(N).  The shapes (`1 + N`, `-1 + N`, …) are those the proofs of Props/C03 rewrite. -/
+
+-- the simp sets below list every `toC_*` lemma on purpose (which ones fire depends on how the Python is written)
+set_option linter.unusedSimpArgs false
+
+/-- γ⁰_qq(N) = γ⁰_NS(N) -/
+noncomputable def qq0C (N s : ℂ) : ℂ := (CF : ℂ) * (-3 - 2 / (N * (1 + N)) + 4 * s)
+noncomputable def qg0C (N : ℂ) (nf : ℝ) : ℂ :=
+  -4 * (nf : ℂ) * (TF : ℂ) * (2 + N + N * N) / (N * (1 + N) * (2 + N))
+noncomputable def gq0C (N : ℂ) : ℂ := -2 * (CF : ℂ) * (2 + N + N * N) / ((-1 + N) * N * (1 + N))
+noncomputable def gg0C (N s : ℂ) (nf : ℝ) : ℂ :=
+  (-22 * (CA : ℂ) / 3 - 8 * (CA : ℂ) * (1 / ((-1 + N) * N) + 1 / ((1 + N) * (2 + N)) - s) + 8 * (nf : ℂ) * (TF : ℂ) / 3) / 2
+/-- c_FL: quark entries, gluon entry -/
+noncomputable def cFLqC (N : ℂ) : ℂ := 2 * (CF : ℂ) / (1 + N)
+noncomputable def cFLgC (N : ℂ) (nf : ℝ) : ℂ := 4 * (nf : ℂ) / ((1 + N) * (2 + N))
+
+theorem non_singlet_LO_C (n : Cx ℝ) (nf prty : ℝ) (P : SF) :
+    toC (non_singlet_LO n nf prty P) = qq0C (toC n) (toC P.S1) := by
+  simp only [non_singlet_LO, qq0C, toC_add, toC_sub, toC_mul, toC_div, toC_neg, toC_r]
+  push_cast
+  bridge
+theorem singlet_LO_qq_C (n : Cx ℝ) (nf prty : ℝ) (P : SF) :
+    toC (singlet_LO n nf prty P).qq = qq0C (toC n) (toC P.S1) := by
+  simp only [singlet_LO, qq0C, toC_add, toC_sub, toC_mul, toC_div, toC_neg, toC_r]
+  push_cast
+  bridge
+theorem singlet_LO_qg_C (n : Cx ℝ) (nf prty : ℝ) (P : SF) :
+    toC (singlet_LO n nf prty P).qg = qg0C (toC n) nf := by
+  simp only [singlet_LO, qg0C, toC_add, toC_sub, toC_mul, toC_div, toC_neg, toC_r]
+  push_cast
+  bridge
+theorem singlet_LO_gq_C (n : Cx ℝ) (nf prty : ℝ) (P : SF) :
+    toC (singlet_LO n nf prty P).gq = gq0C (toC n) := by
+  simp only [singlet_LO, gq0C, toC_add, toC_sub, toC_mul, toC_div, toC_neg, toC_r]
+  push_cast
+  bridge
+theorem singlet_LO_gg_C (n : Cx ℝ) (nf prty : ℝ) (P : SF) :
+    toC (singlet_LO n nf prty P).gg = gg0C (toC n) (toC P.S1) nf := by
+  simp only [singlet_LO, gg0C, toC_add, toC_sub, toC_mul, toC_div, toC_neg, toC_r]
+  push_cast
+  bridge
+theorem c1_FL_C (n : Cx ℝ) (nf : ℝ) (P : SF) :
+    toC (c1_FL n nf P).Q = cFLqC (toC n) ∧ toC (c1_FL n nf P).NSP = cFLqC (toC n) ∧
+    toC (c1_FL n nf P).NSM = cFLqC (toC n) ∧ toC (c1_FL n nf P).G = cFLgC (toC n) nf := by
+  refine ⟨?_, ?_, ?_, ?_⟩ <;>
+    simp only [c1_FL, cFLqC, cFLgC, toC_add, toC_sub, toC_mul, toC_div, toC_neg, toC_r] <;>
+    push_cast <;> bridge
 
 end Gep.R.Adim
